@@ -7,41 +7,9 @@ import DnsModel.Codec
 import DnsModel.Generated.Codecs
 import DnsProofs.C03
 import DnsProofs.C01Nsec
+import DnsProofs.C01Tlv
 namespace Dns.C01
 open Dns Dns.C03
-
-/-! ### integers -/
-
-theorem foldl_be (bs : Bytes) (acc : Nat) :
-    bs.foldl (fun a b => a * 256 + b.toNat) acc = acc * 256 ^ bs.length + bs.foldl (fun a b => a * 256 + b.toNat) 0 := by
-  induction bs generalizing acc with
-  | nil => simp
-  | cons b bs ih =>
-    simp only [List.foldl_cons, List.length_cons]
-    rw [ih (acc * 256 + b.toNat), ih (0 * 256 + b.toNat)]
-    simp only [Nat.zero_mul, Nat.zero_add, Nat.pow_succ]
-    rw [Nat.add_mul, Nat.mul_assoc, Nat.mul_comm 256 (256 ^ bs.length)]
-    omega
-
-theorem beBytes_len (w v : Nat) : (beBytes w v).length = w := by
-  induction w with
-  | zero => rfl
-  | succ w ih => simp [beBytes, ih]
-
-theorem beVal_beBytes_mod (w v : Nat) : beVal (beBytes w v) = v % 256 ^ w := by
-  induction w with
-  | zero => simp [beBytes, beVal, Nat.mod_one]
-  | succ w ih =>
-    unfold beVal at ih ⊢
-    simp only [beBytes, List.foldl_cons, Nat.zero_mul, Nat.zero_add]
-    rw [foldl_be, ih, beBytes_len]
-    have hb : (UInt8.ofNat (v / 256 ^ w % 256)).toNat = v / 256 ^ w % 256 := by
-      simp [UInt8.toNat_ofNat']
-    rw [hb, Nat.pow_succ, Nat.mod_mul]
-    rw [Nat.mul_comm]; omega
-
-theorem beVal_beBytes (w v : Nat) (h : v < 256 ^ w) : beVal (beBytes w v) = v := by
-  rw [beVal_beBytes_mod, Nat.mod_eq_of_lt h]
 
 /-! ### values that a step can carry, and the step laws -/
 
@@ -56,21 +24,66 @@ def WFStep (vals : List Val) : CStep → Val → Prop
   | .blobSized i, .b bs => vals.getD i (.n 0) = .n bs.length
   | .txt, .ss strs => ∀ s ∈ strs, s.length ≤ 255
   | .nsec, .ts types => types.Pairwise (· < ·) ∧ ∀ t ∈ types, t < 65536
+  | .names, .ns texts => ∀ t ∈ texts, ∃ ls, WireNameOK ls ∧ t = presentOf ls
+  | .tlvs sorted, .kv items => TlvOK items ∧ KeysFrom none sorted items
+  | .apl, .ap items => ∀ it ∈ items, AplOK it
+  | .gateway i m, v =>
+    match gatewayType vals i m, v with
+    | 1, .b bs => bs.length = 4
+    | 2, .b bs => bs.length = 16
+    | 3, .t text => ∃ ls, WireNameOK ls ∧ text = presentOf ls
+    | 1, _ => False
+    | 2, _ => False
+    | 3, _ => False
+    | _, .b [] => True
+    | _, _ => False
   | _, _ => False
 
 /-- steps that say themselves where they end -/
 def selfDelim : CStep → Bool
-  | .uint _ | .a | .aaaa | .str | .name | .blobSized _ => true
+  | .uint _ | .a | .aaaa | .str | .name | .blobSized _ | .gateway _ _ => true
   | _ => false
 
 theorem ofNat_toNat_le (n : Nat) (h : n ≤ 255) : (UInt8.ofNat n).toNat = n := by
   simp [UInt8.toNat_ofNat']; omega
 
+theorem gateway_roundtrip (vals : List Val) (i : Nat) (m : Bool) (v : Val) (rest : Bytes)
+    (hw : WFStep vals (.gateway i m) v) :
+    ∃ w, packStep vals (.gateway i m) v = some w ∧ unpackStep vals (.gateway i m) (w ++ rest) = some (v, rest) := by
+  simp only [WFStep] at hw
+  simp only [packStep, unpackStep]
+  generalize gatewayType vals i m = g at hw ⊢
+  match g, v, hw with
+  | 1, .b bs, hw =>
+    simp only at hw
+    refine ⟨bs, by simp [hw], ?_⟩
+    have : 4 ≤ (bs ++ rest).length := by simp [hw]
+    simp only [this, ↓reduceIte]
+    have e1 : (bs ++ rest).take 4 = bs := by rw [← hw, List.take_left']; rfl
+    have e2 : (bs ++ rest).drop 4 = rest := by rw [← hw, List.drop_left']; rfl
+    rw [e1, e2]
+  | 2, .b bs, hw =>
+    simp only at hw
+    refine ⟨bs, by simp [hw], ?_⟩
+    have : 16 ≤ (bs ++ rest).length := by simp [hw]
+    simp only [this, ↓reduceIte]
+    have e1 : (bs ++ rest).take 16 = bs := by rw [← hw, List.take_left']; rfl
+    have e2 : (bs ++ rest).drop 16 = rest := by rw [← hw, List.drop_left']; rfl
+    rw [e1, e2]
+  | 3, .t text, hw =>
+    obtain ⟨ls, hok, rfl⟩ := hw
+    refine ⟨wireOf ls, by simp [pack_present ls hok], ?_⟩
+    simp only [unpack_wire ls rest hok, List.drop_left']
+  | 0, .b [], _ => exact ⟨[], by simp, by simp⟩
+  | n + 4, .b [], _ => exact ⟨[], by simp, by simp⟩
+
 /-- **self-delimiting steps**: what was packed is read back and exactly the rest is left -/
 theorem step_roundtrip (vals : List Val) (s : CStep) (v : Val) (rest : Bytes) (hs : selfDelim s = true)
     (hw : WFStep vals s v) :
-    ∃ w, packStep s v = some w ∧ unpackStep vals s (w ++ rest) = some (v, rest) := by
-  cases s <;> simp only [selfDelim, Bool.false_eq_true] at hs <;> cases v <;> simp only [WFStep] at hw
+    ∃ w, packStep vals s v = some w ∧ unpackStep vals s (w ++ rest) = some (v, rest) := by
+  cases s <;> simp only [selfDelim, Bool.false_eq_true] at hs
+  case gateway i m => exact gateway_roundtrip vals i m v rest hw
+  all_goals cases v <;> simp only [WFStep] at hw
   case uint.n w v =>
     refine ⟨beBytes w v, by simp [packStep, hw], ?_⟩
     simp only [unpackStep, List.length_append, beBytes_len]
@@ -131,18 +144,73 @@ theorem txt_roundtrip (strs : List Bytes) (h : ∀ s ∈ strs, s.length ≤ 255)
       rw [hu f (by simp at hf; omega)]
       rfl
 
+theorem wireOf_ne_nil (ls : List Bytes) : 0 < (wireOf ls).length := by simp [wireOf]
+
+theorem names_roundtrip (texts : List Bytes) (h : ∀ t ∈ texts, ∃ ls, WireNameOK ls ∧ t = presentOf ls) :
+    ∃ w, packNames texts = some w ∧ ∀ fuel, w.length < fuel → unpackNames fuel w = some texts := by
+  induction texts with
+  | nil => exact ⟨[], rfl, by intro fuel hf; cases fuel with | zero => omega | succ f => rfl⟩
+  | cons t rest ih =>
+    obtain ⟨ls, hok, rfl⟩ := h t (by simp)
+    obtain ⟨w, hw, hu⟩ := ih (fun x hx => h x (by simp [hx]))
+    refine ⟨wireOf ls ++ w, by simp [packNames, pack_present ls hok, hw], ?_⟩
+    intro fuel hf
+    cases fuel with
+    | zero => omega
+    | succ f =>
+      have hpos := wireOf_ne_nil ls
+      have hne : wireOf ls ++ w ≠ [] := by
+        intro e
+        have h0 := congrArg List.length e
+        simp only [List.length_append, List.length_nil] at h0
+        omega
+      cases hx : wireOf ls ++ w with
+      | nil => exact absurd hx hne
+      | cons c cs =>
+        rw [← hx]
+        have hstep : unpackNames (f + 1) (wireOf ls ++ w) = (match unpackName (wireOf ls ++ w) 0 with
+            | .ok (text, off) => if off = 0 then none else (unpackNames f ((wireOf ls ++ w).drop off)).map (fun r => text :: r)
+            | _ => none) := by
+          rw [hx]; rfl
+        rw [hstep, unpack_wire ls w hok]
+        have : ¬ (wireOf ls).length = 0 := by omega
+        simp only [this, ↓reduceIte, List.drop_left']
+        have hwf : w.length < f := by
+          simp only [List.length_append] at hf; omega
+        rw [hu f hwf]
+        rfl
+
+/-- steps that run to the end of the RDATA -/
+def restStep : CStep → Bool
+  | .blobRest | .txt | .nsec | .names | .tlvs _ | .apl => true
+  | _ => false
+
 /-- **rest-consuming steps**, as the last step of a body -/
-theorem last_roundtrip (vals : List Val) (s : CStep) (v : Val) (hs : s = .blobRest ∨ s = .txt ∨ s = .nsec)
+theorem last_roundtrip (vals : List Val) (s : CStep) (v : Val) (hs : restStep s = true)
     (hw : WFStep vals s v) :
-    ∃ w, packStep s v = some w ∧ unpackStep vals s w = some (v, []) := by
-  rcases hs with rfl | rfl | rfl <;> cases v <;> simp only [WFStep] at hw
-  case inl.b bs => exact ⟨bs, rfl, rfl⟩
-  case inr.inl.ss strs =>
+    ∃ w, packStep vals s v = some w ∧ unpackStep vals s w = some (v, []) := by
+  cases s <;> simp only [restStep, Bool.false_eq_true] at hs <;> cases v <;> simp only [WFStep] at hw
+  case blobRest.b bs => exact ⟨bs, rfl, rfl⟩
+  case txt.ss strs =>
     obtain ⟨w, h1, h2⟩ := txt_roundtrip strs hw
     exact ⟨w, h1, by simp [unpackStep, h2 (w.length + 1) (by omega)]⟩
-  case inr.inr.ts types =>
+  case nsec.ts types =>
     obtain ⟨w, h1, h2⟩ := nsec_roundtrip types hw.1 hw.2
     exact ⟨w, h1, by simp [unpackStep, h2]⟩
+  case names.ns texts =>
+    obtain ⟨w, h1, h2⟩ := names_roundtrip texts hw
+    exact ⟨w, h1, by simp [unpackStep, h2 (w.length + 1) (by omega)]⟩
+  case tlvs.kv sorted items =>
+    obtain ⟨w, h1, h2⟩ := tlvs_roundtrip sorted items hw.1
+    refine ⟨w, ?_, by simp [unpackStep, h2 (w.length + 1) none (by omega) hw.2]⟩
+    cases sorted with
+    | false => exact h1
+    | true =>
+      obtain ⟨hp, hr, _⟩ := hw.2 rfl
+      simp only [packStep, sortKV_of_sorted items hp, svcbKeysOK_sorted 65535 items hp hr, ↓reduceIte, h1]
+  case apl.ap items =>
+    obtain ⟨w, h1, h2⟩ := apl_roundtrip items hw
+    exact ⟨w, h1, by simp [unpackStep, h2 (w.length + 1) (by omega)]⟩
 
 /-! ### whole bodies -/
 
@@ -151,7 +219,7 @@ theorem last_roundtrip (vals : List Val) (s : CStep) (v : Val) (hs : s = .blobRe
 def GoodPlan : List CStep → Bool
   | [] => true
   | .early :: U => GoodPlan U
-  | s :: U => if selfDelim s then GoodPlan U else (s == .blobRest || s == .txt || s == .nsec) && U.all (· == .early)
+  | s :: U => if selfDelim s then GoodPlan U else restStep s && U.all (· == .early)
 
 /-- field values fit the body -/
 def WFPlan : List Val → List CStep → List Val → Prop
@@ -160,9 +228,22 @@ def WFPlan : List Val → List CStep → List Val → Prop
   | acc, s :: U, v :: vals => WFStep acc s v ∧ WFPlan (acc ++ [v]) U vals
   | _, _, _ => False
 
-theorem packStep_nil (vals : List Val) (s : CStep) (v : Val) (hw : WFStep vals s v) (hp : packStep s v = some []) :
+theorem packStep_nil (vals : List Val) (s : CStep) (v : Val) (hw : WFStep vals s v) (hp : packStep vals s v = some []) :
     zeroVal s = some v := by
-  cases s <;> cases v <;> simp only [WFStep] at hw <;> simp only [packStep] at hp
+  cases s
+  case gateway i m =>
+    simp only [WFStep] at hw
+    simp only [packStep] at hp
+    generalize gatewayType vals i m = g at hw hp
+    match g, v, hw with
+    | 1, .b bs, hw => simp only at hw hp; simp [hw] at hp; subst hp; simp at hw
+    | 2, .b bs, hw => simp only at hw hp; simp [hw] at hp; subst hp; simp at hw
+    | 3, .t text, hw =>
+      obtain ⟨ls, hok, rfl⟩ := hw
+      simp [pack_present ls hok, wireOf] at hp
+    | 0, .b [], _ => rfl
+    | n + 4, .b [], _ => rfl
+  all_goals cases v <;> simp only [WFStep] at hw <;> simp only [packStep] at hp
   case uint.n w v =>
     simp only [hw, ↓reduceIte, Option.some.injEq] at hp
     have hl := congrArg List.length hp
@@ -189,6 +270,48 @@ theorem packStep_nil (vals : List Val) (s : CStep) (v : Val) (hw : WFStep vals s
       cases hf : packNsecFold (t :: ts) ⟨[], 0, 0, []⟩ with
       | none => simp [hf] at hp
       | some st => simp [hf] at hp
+  case tlvs.kv sorted items =>
+    cases items with
+    | nil => rfl
+    | cons x xs =>
+      obtain ⟨c, d⟩ := x
+      have hp : packTlvs ((c, d) :: xs) = some [] := by
+        cases sorted with
+        | false => simp only at hp; exact hp
+        | true =>
+          obtain ⟨hp', hr, _⟩ := hw.2 rfl
+          simp only [sortKV_of_sorted _ hp', svcbKeysOK_sorted 65535 _ hp' hr, ↓reduceIte] at hp
+          exact hp
+      simp only [packTlvs] at hp
+      split at hp
+      · cases h : packTlvs xs with
+        | none => simp [h] at hp
+        | some r =>
+          simp only [h, Option.map_some, Option.some.injEq] at hp
+          have := congrArg List.length hp
+          simp [beBytes_len] at this
+      · cases hp
+  case apl.ap items =>
+    cases items with
+    | nil => rfl
+    | cons x xs =>
+      obtain ⟨a, ha, hpos, _⟩ := apl_item_roundtrip x [] (hw x (by simp))
+      simp only [packApl, ha] at hp
+      cases h : packApl xs with
+      | none => simp [h] at hp
+      | some r =>
+        simp only [h, Option.some.injEq] at hp
+        have := congrArg List.length hp
+        simp only [List.length_append, List.length_nil] at this
+        omega
+  case names.ns texts =>
+    cases texts with
+    | nil => rfl
+    | cons t ts =>
+      obtain ⟨ls, hok, hls⟩ := hw t (by simp)
+      subst hls
+      simp only [packNames, pack_present ls hok] at hp
+      cases h : packNames ts <;> simp [h, wireOf] at hp
   case txt.ss strs =>
     cases strs with
     | nil => rfl
@@ -222,16 +345,12 @@ theorem good_cons_self (s : CStep) (U : List CStep) (hs : s ≠ .early) (hd : se
   cases s <;> first | exact absurd rfl hs | (simp [selfDelim] at hd; done) | simp [GoodPlan, selfDelim]
 
 theorem good_cons_last (s : CStep) (U : List CStep) (hs : s ≠ .early) (hd : ¬ selfDelim s = true)
-    (hg : GoodPlan (s :: U) = true) : (s = .blobRest ∨ s = .txt ∨ s = .nsec) ∧ U.all (· == .early) = true := by
+    (hg : GoodPlan (s :: U) = true) : restStep s = true ∧ U.all (· == .early) = true := by
   cases s <;> first
     | exact absurd rfl hs
     | (simp [selfDelim] at hd; done)
     | (simp only [GoodPlan, selfDelim, Bool.false_eq_true, ↓reduceIte, Bool.and_eq_true] at hg
-       first
-         | exact ⟨Or.inl rfl, hg.2⟩
-         | exact ⟨Or.inr (Or.inl rfl), hg.2⟩
-         | exact ⟨Or.inr (Or.inr rfl), hg.2⟩
-         | (simp at hg))
+       exact hg)
 
 theorem wf_cons (acc : List Val) (s : CStep) (U : List CStep) (v : Val) (vals : List Val) (hs : s ≠ .early)
     (hw : WFPlan acc (s :: U) (v :: vals)) : WFStep acc s v ∧ WFPlan (acc ++ [v]) U vals := by
@@ -241,13 +360,13 @@ theorem wf_cons_nil (acc : List Val) (s : CStep) (U : List CStep) (hs : s ≠ .e
     (hw : WFPlan acc (s :: U) []) : False := by
   cases s <;> first | exact absurd rfl hs | (simp [WFPlan] at hw)
 
-theorem packStep_blobSized (i : Nat) (v : Val) : packStep (.blobSized i) v = packStep .blobRest v := by
+theorem packStep_blobSized (acc : List Val) (i : Nat) (v : Val) : packStep acc (.blobSized i) v = packStep acc .blobRest v := by
   cases v <;> rfl
 
-theorem packPlan_cons_some (s : CStep) (steps : List CStep) (v : Val) (vals : List Val) (w : Bytes) (hs : s ≠ .early)
-    (h : packPlan (s :: steps) (v :: vals) = some w) :
-    ∃ a r, packStep s v = some a ∧ packPlan steps vals = some r ∧ w = a ++ r := by
-  cases s <;> simp only [packPlan] at h <;> first
+theorem packPlan_cons_some (acc : List Val) (s : CStep) (steps : List CStep) (v : Val) (vals : List Val) (w : Bytes)
+    (hs : s ≠ .early) (h : packPlanAcc acc (s :: steps) (v :: vals) = some w) :
+    ∃ a r, packStep acc s v = some a ∧ packPlanAcc (acc ++ [v]) steps vals = some r ∧ w = a ++ r := by
+  cases s <;> simp only [packPlanAcc] at h <;> first
     | exact absurd rfl hs
     | (split at h
        · rename_i a r h1 h2
@@ -262,26 +381,26 @@ theorem strip_cons (s : CStep) (U : List CStep) (hs : s ≠ .early) :
 /-- when everything that is left packs to nothing, every remaining field holds its zero value: the early exit of the
     unpacker loses nothing -/
 theorem zeros_of_empty (acc : List Val) (U : List CStep) (vals : List Val) (hg : GoodPlan U = true)
-    (hw : WFPlan acc U vals) (hp : packPlan (stripPlan U) vals = some []) : U.filterMap zeroVal = vals := by
+    (hw : WFPlan acc U vals) (hp : packPlanAcc acc (stripPlan U) vals = some []) : U.filterMap zeroVal = vals := by
   induction U generalizing acc vals with
   | nil => cases vals <;> simp_all [WFPlan]
   | cons s U ih =>
     by_cases hse : s = .early
     · subst hse
       simp only [List.filterMap_cons, zeroVal]
-      exact ih acc vals hg (by simpa [WFPlan] using hw) (by simpa [stripPlan] using hp)
+      exact ih acc vals hg (by simpa [WFPlan] using hw) (by simpa [stripPlan, packPlanAcc] using hp)
     · cases vals with
       | nil => exact (wf_cons_nil acc s U hse hw).elim
       | cons v vals =>
         obtain ⟨hw1, hw2⟩ := wf_cons acc s U v vals hse hw
         rw [strip_cons s U hse] at hp
-        obtain ⟨a, r, h1, h2, h3⟩ := packPlan_cons_some _ _ _ _ _ (by cases s <;> first | exact absurd rfl hse | simp) hp
+        obtain ⟨a, r, h1, h2, h3⟩ := packPlan_cons_some acc _ _ _ _ _ (by cases s <;> first | exact absurd rfl hse | simp) hp
         have ha : a = [] := by
           have := congrArg List.length h3; simp at this; exact List.length_eq_zero_iff.mp (by omega)
         have hr : r = [] := by
           have := congrArg List.length h3; simp at this; exact List.length_eq_zero_iff.mp (by omega)
         subst ha hr
-        have h1' : packStep s v = some [] := by
+        have h1' : packStep acc s v = some [] := by
           cases s <;> first | exact h1 | (rw [packStep_blobSized]; exact h1)
         have hz := packStep_nil acc s v hw1 h1'
         simp only [List.filterMap_cons, hz]
@@ -296,7 +415,7 @@ theorem zeros_of_empty (acc : List Val) (U : List CStep) (vals : List Val) (hg :
     fitting field values, unpacking what was packed returns exactly the values -/
 theorem plan_roundtrip (acc : List Val) (U : List CStep) (vals : List Val) (hg : GoodPlan U = true)
     (hw : WFPlan acc U vals) :
-    ∃ w, packPlan (stripPlan U) vals = some w ∧ unpackPlan U w acc = some (acc ++ vals) := by
+    ∃ w, packPlanAcc acc (stripPlan U) vals = some w ∧ unpackPlan U w acc = some (acc ++ vals) := by
   induction U generalizing acc vals with
   | nil =>
     cases vals with
@@ -306,7 +425,7 @@ theorem plan_roundtrip (acc : List Val) (U : List CStep) (vals : List Val) (hg :
     by_cases hse : s = .early
     · subst hse
       obtain ⟨w, h1, h2⟩ := ih acc vals hg (by simpa [WFPlan] using hw)
-      refine ⟨w, by simpa [stripPlan] using h1, ?_⟩
+      refine ⟨w, by simpa [stripPlan, packPlanAcc] using h1, ?_⟩
       simp only [unpackPlan]
       by_cases he : w.isEmpty = true
       · simp only [he, ↓reduceIte]
@@ -318,14 +437,14 @@ theorem plan_roundtrip (acc : List Val) (U : List CStep) (vals : List Val) (hg :
       | nil => exact (wf_cons_nil acc s U hse hw).elim
       | cons v vals =>
         obtain ⟨hw1, hw2⟩ := wf_cons acc s U v vals hse hw
-        have hpack : ∀ a r, packStep s v = some a → packPlan (stripPlan U) vals = some r →
-            packPlan (stripPlan (s :: U)) (v :: vals) = some (a ++ r) := by
+        have hpack : ∀ a r, packStep acc s v = some a → packPlanAcc (acc ++ [v]) (stripPlan U) vals = some r →
+            packPlanAcc acc (stripPlan (s :: U)) (v :: vals) = some (a ++ r) := by
           intro a r ha hr
           rw [strip_cons s U hse]
           cases s <;> first
             | exact absurd rfl hse
-            | (simp [packPlan, ha, hr]; done)
-            | (simp only [packPlan]; rw [← packStep_blobSized, ha, hr])
+            | (simp [packPlanAcc, ha, hr]; done)
+            | (simp only [packPlanAcc]; rw [← packStep_blobSized, ha, hr])
         by_cases hsd : selfDelim s = true
         · have hg' : GoodPlan U = true := by rw [← good_cons_self s U hse hsd]; exact hg
           obtain ⟨w', h1, h2⟩ := ih (acc ++ [v]) vals hg' hw2
@@ -338,7 +457,7 @@ theorem plan_roundtrip (acc : List Val) (U : List CStep) (vals : List Val) (hg :
           have hv := wf_all_early (acc ++ [v]) U vals hall hw2
           subst hv
           obtain ⟨a, ha, hu⟩ := last_roundtrip acc s v hlast hw1
-          have hr : packPlan (stripPlan U) [] = some [] := by rw [(strip_all_early U hall).1]; rfl
+          have hr : packPlanAcc (acc ++ [v]) (stripPlan U) [] = some [] := by rw [(strip_all_early U hall).1]; rfl
           refine ⟨a, by have := hpack a [] ha hr; simpa using this, ?_⟩
           have hrest : ∀ (V : List CStep) (acc' : List Val), V.all (· == .early) = true →
               unpackPlan V [] acc' = some acc' := by
@@ -351,7 +470,7 @@ theorem plan_roundtrip (acc : List Val) (U : List CStep) (vals : List Val) (hg :
               obtain ⟨rfl, hV2⟩ := hV
               simp [unpackPlan, (strip_all_early V hV2).2]
           have : unpackPlan (s :: U) a acc = unpackPlan U [] (acc ++ [v]) := by
-            rcases hlast with rfl | rfl | rfl <;> simp [unpackPlan, hu]
+            cases s <;> first | exact absurd rfl hse | (simp [restStep] at hlast; done) | simp [unpackPlan, hu]
           rw [this, hrest U _ hall]
 
 end Dns.C01
